@@ -21,7 +21,7 @@ pub fn property() -> Property {
     Property {
         id: "C13",
         level: "exploration",
-        rule: "Lab-S family `reuse`: histories of requests through the SOCKS5 front-end (the only layer that knows when a request is over): Seq (one request: connect, echo, close from the application side, settle) and Burst(b) (b simultaneous requests, all completed before the next step), 2-40 requests, pool settings varied (min idle 0-3); the real client dials a counting TCP forwarder in front of the real server, which reports how many TLS connections were opened and how many are still open. Oracles: r_n - a request that overlaps no other is served without a new connection whenever an established healthy session exists (n = 2 and n >= 3 are reported under separate signatures); bound - connections still open <= peak simultaneous requests + min idle after every step. Non-trivial = >= 3 sequential requests, or a burst followed by sequential requests. Distinct = distinct serialized case. Histories also contain requests to a closed port (the request fails, the session it used stays healthy and pooled sessions must still be reused) and cuts of every established connection by the forwarder (the next request must be served over a new connection, closed sessions are never handed out). A further step cuts only the k-th newest established connection: at least pooled-1 healthy sessions remain pooled and the next request must be served by one of them. Family `pooled` (Lab-M, virtual time with the I/O driver on): a real Client (it would dial 127.0.0.1:1, where nothing listens) whose pool holds 1-3 healthy in-memory sessions with scripted accepting servers, added first, and 0-3 sessions whose transport takes 10-990 ms to shut down; after 5-200 s idle, cleanup_expired() runs concurrently with create_proxy_stream started 0-1500 ms later, then 0-2 further requests. Whenever the reaper must keep at least one healthy session (min idle >= 1) the request has to be served from the pool; a failure means it went for a new connection. Four pooled cases in ten leave the pool's own periodic housekeeping running (check interval 1 / 10 / 30 / 45 s): as long as nothing has been idle for the 60 s timeout every session must still be pooled and open (C13.reuse:pooled-session-dropped-early). A further step makes a UDP association through the same client whose target answers the one datagram with an empty datagram (ending the client's relay loop): the association counts as a request for the pool model, and the session it ran on must stay usable.",
+        rule: "Lab-S family `reuse`: histories of requests through the SOCKS5 front-end (the only layer that knows when a request is over): Seq (one request: connect, echo, close from the application side, settle) and Burst(b) (b simultaneous requests, all completed before the next step), 2-40 requests, pool settings varied (min idle 0-3); the real client dials a counting TCP forwarder in front of the real server, which reports how many TLS connections were opened and how many are still open. Oracles: r_n - a request that overlaps no other is served without a new connection whenever an established healthy session exists (n = 2 and n >= 3 are reported under separate signatures); bound - connections still open <= peak simultaneous requests + min idle after every step. Non-trivial = >= 3 sequential requests, or a burst followed by sequential requests. Distinct = distinct serialized case. Histories also contain requests to a closed port (the request fails, the session it used stays healthy and pooled sessions must still be reused) and cuts of every established connection by the forwarder (the next request must be served over a new connection, closed sessions are never handed out). A further step cuts only the k-th newest established connection: at least pooled-1 healthy sessions remain pooled and the next request must be served by one of them. Family `pooled` (Lab-M, virtual time with the I/O driver on): a real Client (it would dial 127.0.0.1:1, where nothing listens) whose pool holds 1-3 healthy in-memory sessions with scripted accepting servers, added first, and 0-3 sessions whose transport takes 10-990 ms to shut down; after 5-200 s idle, cleanup_expired() runs concurrently with create_proxy_stream started 0-1500 ms later, then 0-2 further requests. Whenever the reaper must keep at least one healthy session (min idle >= 1) the request has to be served from the pool; a failure means it went for a new connection. Four pooled cases in ten leave the pool's own periodic housekeeping running (check interval 1 / 10 / 30 / 45 s): as long as nothing has been idle for the 60 s timeout every session must still be pooled and open (C13.reuse:pooled-session-dropped-early). A further step makes a UDP association through the same client whose target answers the one datagram with an empty datagram (ending the client's relay loop): the association counts as a request for the pool model, and the session it ran on must stay usable. The reuse family also has bursts in which the network accepts the first dial, leaves it unanswered and cuts it after 700 ms (long after its siblings were established): only the request on that connection may fail, and the sessions of the others must still be in the pool (idle count = model) and be reused by the next requests.",
         assumptions: vec![
             "the forwarder's accept count equals the number of TLS sessions dialled; a connection counts as open until either side closed it",
             "no timers involved: histories are shorter than the 30 s check interval",
@@ -45,6 +45,10 @@ pub enum Step {
     /// a UDP association through the same client: one datagram out, the target answers with an
     /// empty datagram (which ends the client's relay loop) - the session it ran on stays healthy
     UdpEmptyReply,
+    /// a burst in which the network fails one dial slowly: the first connection dialled during the
+    /// burst is accepted, gets no answer and is cut after 700 ms - after its siblings have long been
+    /// established. The request on that connection may fail; the sessions of the others stay pooled.
+    BurstFailedDial(u8),
 }
 
 #[derive(Clone, Debug, Serialize, Deserialize)]
@@ -67,6 +71,10 @@ pub struct Forwarder {
     pub kill: tokio::sync::watch::Sender<u64>,
     /// one switch per accepted connection, in accept order: (cut it, still open?)
     pub conns: Arc<Mutex<Vec<(Arc<tokio::sync::Notify>, Arc<std::sync::atomic::AtomicBool>)>>>,
+    /// how many of the next accepted connections get no answer and are cut after 700 ms
+    pub hold_and_cut: Arc<AtomicUsize>,
+    /// how many connections were treated that way
+    pub cut_count: Arc<AtomicUsize>,
 }
 
 impl Forwarder {
@@ -92,9 +100,22 @@ pub async fn start_forwarder(upstream: SocketAddr) -> Result<Forwarder, Fail> {
     let (kill, kill_rx) = tokio::sync::watch::channel(0u64);
     let conns: Arc<Mutex<Vec<(Arc<tokio::sync::Notify>, Arc<std::sync::atomic::AtomicBool>)>>> = Default::default();
     let conns2 = conns.clone();
+    let hold_and_cut = Arc::new(AtomicUsize::new(0));
+    let cut_count = Arc::new(AtomicUsize::new(0));
+    let (hold2, cutc2) = (hold_and_cut.clone(), cut_count.clone());
     tokio::spawn(async move {
         loop {
             let Ok((mut c, _)) = l.accept().await else { break };
+            if hold2.load(Ordering::SeqCst) > 0 {
+                hold2.fetch_sub(1, Ordering::SeqCst);
+                cutc2.fetch_add(1, Ordering::SeqCst);
+                a2.fetch_add(1, Ordering::SeqCst);
+                tokio::spawn(async move {
+                    tokio::time::sleep(Duration::from_millis(700)).await;
+                    drop(c);
+                });
+                continue;
+            }
             let mut killed = kill_rx.clone();
             killed.borrow_and_update();
             let cut = Arc::new(tokio::sync::Notify::new());
@@ -143,7 +164,7 @@ pub async fn start_forwarder(upstream: SocketAddr) -> Result<Forwarder, Fail> {
             });
         }
     });
-    Ok(Forwarder { addr, accepted, live, kill, conns })
+    Ok(Forwarder { addr, accepted, live, kill, conns, hold_and_cut, cut_count })
 }
 
 pub async fn one_request(socks: SocketAddr, target: SocketAddr, tag: usize) -> Result<(), Fail> {
@@ -169,7 +190,7 @@ impl Family for ReuseFam {
         "reuse"
     }
     fn strategy(&self, _tier: Tier) -> BoxedStrategy<ReuseCase> {
-        let step = prop_oneof![8 => Just(Step::Seq), 2 => (2u8..6).prop_map(Step::Burst), 2 => (8u8..20).prop_map(Step::Burst), 1 => Just(Step::Refused), 1 => Just(Step::KillAll), 2 => (0u8..3).prop_map(Step::KillOne), 1 => Just(Step::UdpEmptyReply)];
+        let step = prop_oneof![8 => Just(Step::Seq), 2 => (2u8..6).prop_map(Step::Burst), 2 => (8u8..20).prop_map(Step::Burst), 1 => Just(Step::Refused), 1 => Just(Step::KillAll), 2 => (0u8..3).prop_map(Step::KillOne), 1 => Just(Step::UdpEmptyReply), 1 => (2u8..6).prop_map(Step::BurstFailedDial)];
         let step_t = prop_oneof![8 => Just(Step::Seq), 2 => (2u8..4).prop_map(Step::Burst), 4 => prop_oneof![Just(5u8), Just(25), Just(35)].prop_map(Step::Pause), 1 => Just(Step::Refused)];
         prop_oneof![
             2 => (0usize..=3, proptest::collection::vec(step, 2..14)).prop_map(|(min_idle, steps)| ReuseCase { min_idle, steps, short_timers: false }),
@@ -182,6 +203,9 @@ impl Family for ReuseFam {
             ReuseCase { min_idle: 1, steps: vec![Step::Seq, Step::Seq], short_timers: false },
             ReuseCase { min_idle: 1, steps: vec![Step::Seq; 6], short_timers: false },
             ReuseCase { min_idle: 0, steps: vec![Step::Burst(3), Step::Seq, Step::Seq, Step::Seq], short_timers: false },
+            // one dial of a burst fails late: the sessions its siblings made are still there for the next requests
+            ReuseCase { min_idle: 1, steps: vec![Step::BurstFailedDial(3), Step::Seq, Step::Seq], short_timers: false },
+            ReuseCase { min_idle: 0, steps: vec![Step::BurstFailedDial(5), Step::Seq, Step::Burst(2), Step::Seq], short_timers: false },
             // a destination that refuses costs the request, not the session
             ReuseCase { min_idle: 1, steps: vec![Step::Refused, Step::Seq, Step::Seq], short_timers: false },
             ReuseCase { min_idle: 1, steps: vec![Step::Seq, Step::Refused, Step::Seq, Step::Refused, Step::Seq], short_timers: false },
@@ -341,6 +365,44 @@ impl Family for ReuseFam {
                             }
                             continue;
                         }
+                        Step::BurstFailedDial(b) => {
+                            seq_run = 0;
+                            let b = *b as usize;
+                            peak = peak.max(b);
+                            let cut_before = fwd.cut_count.load(Ordering::SeqCst);
+                            fwd.hold_and_cut.store(1, Ordering::SeqCst);
+                            let mut hs = Vec::new();
+                            for k in 0..b {
+                                hs.push(tokio::spawn(one_request(socks, target, n + k + 1)));
+                            }
+                            n += b;
+                            let mut failed = 0usize;
+                            let mut first_fail = None;
+                            for h in hs {
+                                match h.await {
+                                    Ok(Ok(())) => {}
+                                    Ok(Err(f)) => {
+                                        failed += 1;
+                                        first_fail.get_or_insert(f);
+                                    }
+                                    Err(e) => return Err(Fail::plain("C13.serve", format!("burst task: {e}"))),
+                                }
+                            }
+                            fwd.hold_and_cut.store(0, Ordering::SeqCst);
+                            tokio::time::sleep(Duration::from_millis(60)).await;
+                            let cut = fwd.cut_count.load(Ordering::SeqCst) - cut_before;
+                            // only the request whose connection the network cut may fail
+                            if failed > cut {
+                                return Err(first_fail.unwrap());
+                            }
+                            let dialled = fwd.accepted.load(Ordering::SeqCst) - before;
+                            let dialled_ok = dialled - cut;
+                            // every request that was served either got a session of its own (+1) or took one out (-1)
+                            pooled += 2 * dialled_ok as i64 - (b - failed) as i64;
+                            if pooled < 0 {
+                                pooled = 0;
+                            }
+                        }
                         Step::Burst(b) => {
                             seq_run = 0;
                             let b = *b as usize;
@@ -408,6 +470,7 @@ impl Family for ReuseFam {
         out.class_if(case.steps.windows(2).any(|w| matches!(w[0], Step::KillOne(_)) && matches!(w[1], Step::Seq)), "request-after-one-session-cut");
         out.class_if(case.steps.windows(2).any(|w| matches!(w[0], Step::UdpEmptyReply) && matches!(w[1], Step::Seq)), "request-after-a-udp-association-ended");
         out.class_if(case.steps.windows(2).any(|w| matches!(w[0], Step::Refused) && matches!(w[1], Step::Seq)), "refused-then-sequential");
+        out.class_if(case.steps.windows(2).any(|w| matches!(w[0], Step::BurstFailedDial(_)) && matches!(w[1], Step::Seq)), "one-dial-of-a-burst-fails-late-then-sequential");
         out.class_if(case.steps.iter().any(|s| matches!(s, Step::Pause(d) if *d >= 20)) && case.short_timers, "quiet-period>idle-timeout");
         Ok(out)
     }
